@@ -89,6 +89,24 @@ def main():
     except Exception as e:
         traceback.print_exc()
         rep.broken.append("harness error (check could not complete): %r" % (e,))
+    # a tie no longer checks (an obligation fails, a translator or source pin is broken) and the search found no failing input: search twice more
+    # under other seeds before reporting `no-failing-input-found` (never reached on a tree where everything checks)
+    tie_broken = bool(rep.broken) or not all(o.get("ok") for o in obligations)
+    known_keys = {f["key"] for f in C.load_findings(prop)[0]}
+    new_failures = lambda: [f for f in rep.failures if f.key not in known_keys]
+    if tie_broken and not new_failures() and not rep.disagreements and not any("harness error" in b for b in rep.broken):
+        for extra in (1, 2):
+            os.environ["VERIF_SEED"] = str(seed + extra)
+            try:
+                mod.run(rep, a.tier, random.Random(seed + extra))
+            except Exception as e:
+                traceback.print_exc()
+                rep.broken.append("harness error in the extended search (seed %d): %r" % (seed + extra, e))
+                break
+            rep.extra["extended_search_seeds"] = rep.extra.get("extended_search_seeds", []) + [seed + extra]
+            if new_failures() or rep.disagreements:
+                break
+        os.environ["VERIF_SEED"] = str(seed)
     checker = "cd /verif/coq && make -f Makefile.coq -k theories/Props/%s/*.vo && coqc -Q theories OfxV theories/Props/%s/<each>.v" % (prop, prop)
     return C.finish(rep, obligations, gate, checker, getattr(mod, "PARTIAL", []))
 
